@@ -597,9 +597,13 @@ func (c *Conn) ResetPollerEvent() {
 	if g.isOneshot {
 		c.mux.Lock()
 		if !c.closed {
+			// the flag follows what is registered here, otherwise a later
+			// Write that leaves a backlog would skip arming the writing event.
 			if len(c.writeList) == 0 {
+				c.isWAdded = false
 				_ = p.resetRead(fd)
 			} else {
+				c.isWAdded = true
 				_ = p.modWrite(fd)
 			}
 		}
